@@ -673,7 +673,9 @@ def materialize(world, root: str, schema_partition=None, queries_partition=None,
     if remote_url:
         cfg["remote_schema_url"] = remote_url
     elif schema_partition:
-        cfg["schema_path"] = "schema_dir"
+        # (a world may write its source option as a shell pattern: not a documented form - whatever the tool makes of it, it must
+        # make the same of it in every environment)
+        cfg["schema_path"] = world.get("schema_path_pattern") or "schema_dir"
         for rel, idxs in schema_partition:
             writes.append((os.path.join("schema_dir", rel), "\n\n".join(world["defs"][i]["sdl"] for i in idxs) + "\n"))
     elif world.get("literal_odd_dirs"):
@@ -687,7 +689,7 @@ def materialize(world, root: str, schema_partition=None, queries_partition=None,
         qdefs = [o["text"] for o in world["ops"]] + [f["text"] for f in world["frags"]]
         if qdefs or not cfg.get("enable_custom_operations"):
             if queries_partition:
-                cfg["queries_path"] = "queries_dir"
+                cfg["queries_path"] = world.get("queries_path_pattern") or "queries_dir"
                 for rel, idxs in queries_partition:
                     writes.append((os.path.join("queries_dir", rel), "\n\n".join(qdefs[i] for i in idxs) + "\n"))
             elif world.get("literal_odd_dirs"):
